@@ -149,6 +149,10 @@ def run_all(chk, fsets, tier):
         rules_bits.run_writer_layout(chk, F, fs)
         import rules_effects as re_
         re_.run_writer_effects(chk, F, fs)
+        import rules_seq
+        chk.rule("W6.content", floor=60 if i == 0 else 0,
+                 doc="bit-sequence domain: with P the pending bits and F the field appended by the call (write_bits: value[0..n); write_unary: v zeros and a one; flush: zero padding), every word handed to the backend is exactly the next W bits of P ++ F in stream order (BE from the top, LE from the bottom) and the buffer keeps exactly the rest where the next call expects it; W in {8..128}, all paths, loops unrolled (write_bits) or summarised (write_unary)")
+        rules_seq.run_parallel(chk, F, fs, [("writer", "W6.content", nm) for nm in ("write_bits", "write_unary", "flush_be", "flush_le")])
     chk.trust("rustc MIR construction and the mirx exporter")
     chk.trust("contract table sa/contracts.py (std / common_traits primitives, crate trait contracts)")
     chk.trust("exact rational simplex sa/lp.py as the entailment procedure")
